@@ -57,6 +57,9 @@ func (f *ScriptFile) Read(p []byte) (int, error) {
 		}
 	}
 	n := a.N
+	if n < 0 {
+		n = 0
+	}
 	if n > len(f.Data)-f.pos {
 		n = len(f.Data) - f.pos
 	}
@@ -85,7 +88,9 @@ func (f *ScriptFile) Read(p []byte) (int, error) {
 func Chunks(sizes ...int) []Answer {
 	var s []Answer
 	for _, n := range sizes {
-		s = append(s, Answer{N: n})
+		if n > 0 {
+			s = append(s, Answer{N: n})
+		}
 	}
 	return s
 }
